@@ -278,7 +278,7 @@ class DictReader:
                     if ref in references_resolved:
                         expression = re.sub(
                             pattern=f"{re.escape(pattern=ref)}(?!\\w)",
-                            repl=str(references_resolved[ref]),
+                            repl=lambda _, repl=str(references_resolved[ref]): repl,
                             string=expression,
                         )
 
